@@ -64,6 +64,7 @@ func vNondetInt() int         { return int(vNext("int64")) }
 func vNondetInt64() int64     { return int64(vNext("int64")) }
 func vNondetUint64() uint64   { return vNext("uint64") }
 func vNondetUint32() uint32   { return uint32(vNext("uint32")) }
+func vNondetInt32() int32     { return int32(uint32(vNext("int32"))) }
 func vNondetUint16() uint16   { return uint16(vNext("uint16")) }
 func vNondetByte() byte       { return byte(vNext("byte")) }
 func vNondetBool() bool       { return vNext("bool") != 0 }
